@@ -3,20 +3,22 @@
      prop = if invalid_<fn> args then the observed value is an error (VE) carrying the documented payload
             (empty list where the documentation promises it for invalid zooms, false for the overlap checks; "" / empty IDs for the
             shift helpers, which have no error result), never a panic or a time-out; else true;
-     corr = the observed error flag is the error flag of the model (Api.err_<fn> / the model itself where it is cheap);
+     corr = the observed error flag is the error flag of the OWNER's model, run on the arguments (points / line prefix / vertices / notation
+            changes / change / merge / nN / overlap / altitude keys / fit skeleton), or of the closed form proved equal to it
+            (Api.err_e2q, err_e2qa, err_q2e), or of the validation prefix of Api.v where no owner's model is compiled (tiles, EPSG,
+            tile and point setters);
      class = a finding class, only when prop fails in exactly the way the class describes (see the end of this header).
    Observed values: list results are observed as their length (VZ n), (int64, int64) results as VL [a; b], booleans as VB,
    objects as the list of their fields; the error is the VE wrapper. A call whose output would be huge is not made by the harness
    (marker string): such a case is refused here (bad_case), so a shrink candidate of that kind is discarded.
    Finding classes (decidable, narrow; genuine defects of the current tree, each re-confirmed with a concrete Go call):
      setlat_inexact                      the stored latitude is outside [|lat| - 1e-10, |lat|] although the bit-exact model agrees (D20)
-     altkey_zoom_unchecked               ConvertZToMinMaxAltitudekey / ConvertAltitudekeyToMinMaxZ with a zoom outside 0..35 and no error
    Repaired meanwhile (the former witnesses are regression cases of the generator): GetVoxelIDfromSpatialID on fewer than five fields
    (now the empty list), the tile conversions with an empty request and a bad output zoom (now an error), an unknown EPSG code with
-   an empty list (now an error). *)
+   an empty list (now an error), the altitude-key conversions with a zoom outside 0..35 (now an error, MinInt64 no longer panics). *)
 From Coq Require Import ZArith String List Bool Floats.
-From SID Require Import Base Str Ids Wire F64 ExactRef ZoomCore AltKeyCore ChangeZoom Shift Neighbour Notation Overlap QuadkeyConv Project
-  Corridor Api.
+From SID Require Import Base Str Ids Wire F64 ExactRef ZoomCore AltKeyCore ChangeZoom Merge Shift Neighbour Notation PointF VertexF Overlap QuadkeyConv
+  Project Corridor Api.
 Import ListNotations.
 Open Scope string_scope.
 Open Scope Z_scope.
@@ -56,27 +58,37 @@ Definition as_point (v : val) : option point :=
   | _ => None
   end.
 Definition of_point (p : point) : val := VL [VF (plon p); VF (plat p); VF (palt p)].
-(* does the list hold a nil pointer?  (None: an element is neither nil nor a point) *)
-Fixpoint has_nil (l : list val) : option bool :=
+(* points of a list where VNil marks a nil pointer: (has_nil, the non-nil points); None: an element is neither nil nor a point *)
+Fixpoint as_points (l : list val) : option (bool * list point) :=
   match l with
-  | [] => Some false
-  | VNil :: r => match has_nil r with Some _ => Some true | None => None end
-  | v :: r => match as_point v with Some _ => has_nil r | None => None end
+  | [] => Some (false, [])
+  | VNil :: r => match as_points r with Some (_, t) => Some (true, t) | None => None end
+  | v :: r => match as_point v, as_points r with Some p, Some (b, t) => Some (b, p :: t) | _, _ => None end
   end.
+(* the point-lookup, line and corridor entries speak of points NewPoint accepts with an altitude the index arithmetic can hold
+   (|alt| <= 2^40 m; beyond it, +-Inf included, int64(float) is unspecified in Go and the model has no answer): others are bad_case.
+   NewPoint itself is judged on every float (entry NewPoint). *)
+Definition point_in_domain (p : point) : bool :=
+  (abs (plon p) <=? 180)%float && (abs (plat p) <=? c_latmax)%float && (abs (palt p) <=? pow2f 40)%float.
+Definition ofun (oracle : oracle_t) (name : string) (x : float) : float :=
+  match oracle name [VF x] with VF r => r | _ => nan end.
 Definition as_tile (v : val) : option tile :=
   match v with VL [VZ h; VZ x; VZ y; VZ vz; VZ z] => Some (mkt h x y vz z) | _ => None end.
 Definition of_tile (t : tile) : val := VL [VZ (th t); VZ (tx t); VZ (ty t); VZ (tv t); VZ (tz t)].
-(* object.QuadkeyAndVerticalID as [quadkeyZoom; quadkey; vZoom; vIndex; maxHeight; minHeight]; None: bit form (maxHeight > minHeight,
-   property C17) or a NaN height, not judged here *)
-Definition as_item (v : val) : option qitem :=
+(* object.QuadkeyAndVerticalID as [quadkeyZoom; quadkey; vZoom; vIndex; maxHeight; minHeight]: the item, and whether it is in bit form
+   (maxHeight > minHeight, property C17); None: a NaN height *)
+Definition as_item (v : val) : option (qitem * bool) :=
   match v with
   | VL [VZ a; VZ k; VZ b; VZ i; VF mx; VF mn] =>
-      if (mx =? mn)%float then Some (mkq a k b i true)
-      else if (mx <? mn)%float then Some (mkq a k b i false) else None
+      if (mx =? mn)%float then Some (mkq a k b i true, false)
+      else if (mx <? mn)%float then Some (mkq a k b i false, false)
+      else if (mn <? mx)%float then Some (mkq a k b i true, true) else None
   | _ => None
   end.
+(* Some true = index form, Some false = inverted heights; bit form is told apart by height_bits *)
 Definition height_index (mx mn : float) : option bool :=
-  if (mx =? mn)%float then Some true else if (mx <? mn)%float then Some false else None.
+  if (mx =? mn)%float then Some true else if (mx <? mn)%float then Some false else if (mn <? mx)%float then Some true else None.
+Definition height_bits (mx mn : float) : bool := (mn <? mx)%float.
 Definition eid_fields (i : eid) : val := VL [VZ (eh i); VZ (ex i); VZ (ey i); VZ (ev i); VZ (ef i)].
 
 (* ---------- common/object ---------- *)
@@ -184,43 +196,56 @@ Definition d_tile_set (hz : bool) (args : list val) (obs : val) : verdict :=
   end.
 
 (* ---------- shape ---------- *)
-Definition d_points (sid : bool) (args : list val) (obs : val) : verdict :=
+Definition points_model (oracle : oracle_t) (sid : bool) (n : bool) (ps : list point) (h v : Z) : result (list string) :=
+  let tanf := ofun oracle "tan" in let cosf := ofun oracle "cos" in let logf := ofun oracle "log" in
+  if sid then points_sid_api tanf cosf logf n ps h else points_api tanf cosf logf n ps h v.
+Definition d_points (oracle : oracle_t) (sid : bool) (args : list val) (obs : val) : verdict :=
   match args with
   | [VL pl; VZ h; VZ v] =>
       let v := if sid then h else v in
-      match has_nil pl with
-      | Some n => let inv := invalid_points n h v in judge inv (zoom_payload (zoom_bad h || zoom_bad v)) inv obs
+      match as_points pl with
+      | Some (n, ps) =>
+          if negb (forallb point_in_domain ps) then bad_case
+          else judge (invalid_points n h v) (zoom_payload (zoom_bad h || zoom_bad v)) (negb (is_ok (points_model oracle sid n ps h v))) obs
       | None => bad_case
       end
   | _ => bad_case
   end.
-Definition d_points_sid (args : list val) (obs : val) : verdict :=
-  match args with [pl; VZ z] => d_points true [pl; VZ z; VZ z] obs | _ => bad_case end.
-Definition d_line (args : list val) (obs : val) : verdict :=
+Definition d_points_sid (oracle : oracle_t) (args : list val) (obs : val) : verdict :=
+  match args with [pl; VZ z] => d_points oracle true [pl; VZ z; VZ z] obs | _ => bad_case end.
+(* the line (C06: Line.line_api) begins with the nil check and GetExtendedSpatialIdsOnPoints([start, end]); after that prefix it has
+   no error path (Line.line_api_run), so its error flag is the flag of that point lookup *)
+Definition d_line (oracle : oracle_t) (args : list val) (obs : val) : verdict :=
   match args with
   | [s; e; VZ h; VZ v] =>
-      match has_nil [s; e] with
-      | Some n => let inv := invalid_points n h v in judge inv (zoom_payload (zoom_bad h || zoom_bad v)) inv obs
+      match as_points [s; e] with
+      | Some (n, ps) =>
+          if negb (forallb point_in_domain ps) then bad_case
+          else judge (invalid_points n h v) (zoom_payload (zoom_bad h || zoom_bad v)) (negb (is_ok (points_model oracle false n ps h v))) obs
       | None => bad_case
       end
   | _ => bad_case
   end.
-Definition d_line_sid (args : list val) (obs : val) : verdict :=
-  match args with [s; e; VZ z] => d_line [s; e; VZ z; VZ z] obs | _ => bad_case end.
+Definition d_line_sid (oracle : oracle_t) (args : list val) (obs : val) : verdict :=
+  match args with [s; e; VZ z] => d_line oracle [s; e; VZ z; VZ z] obs | _ => bad_case end.
+(* the error flag of the vertex functions does not depend on the transcendental oracles (Api.point_on_eid_flag holds for every
+   oracle): the owner's model is run with the identity in their place *)
 Definition d_point_on (sid : bool) (args : list val) (obs : val) : verdict :=
   match args with
   | [VS id; VZ opt] =>
-      let inv := if sid then invalid_point_on_sid id opt else invalid_point_on_eid id opt in judge inv P_any inv obs
+      let idf := fun x : float => x in
+      if sid then judge (invalid_point_on_sid id opt) P_any (negb (is_ok (point_on_sid_api idf idf id opt))) obs
+      else judge (invalid_point_on_eid id opt) P_any (negb (is_ok (point_on_eid_api idf idf id opt))) obs
   | _ => bad_case
   end.
 Definition d_s2e (args : list val) (obs : val) : verdict :=
   match args with
-  | [l] => match as_LS l with Some sl => let inv := invalid_s2e sl in judge inv P_any inv obs | None => bad_case end
+  | [l] => match as_LS l with Some sl => judge (invalid_s2e sl) P_any (negb (is_ok (sids_to_eids sl))) obs | None => bad_case end
   | _ => bad_case
   end.
 Definition d_e2s (args : list val) (obs : val) : verdict :=
   match args with
-  | [l] => match as_LS l with Some sl => let inv := invalid_e2s sl in judge inv P_any inv obs | None => bad_case end
+  | [l] => match as_LS l with Some sl => judge (invalid_e2s sl) P_any (negb (is_ok (eids_to_sids sl))) obs | None => bad_case end
   | _ => bad_case
   end.
 (* projections: only an EPSG code the library does not know is judged here (any list, the empty one included); everything else
@@ -238,7 +263,9 @@ Definition d_change_ext (merge : bool) (args : list val) (obs : val) : verdict :
   match args with
   | [l; VZ H; VZ V] =>
       match as_LS l with
-      | Some ids => let inv := invalid_change_ext ids H V in judge inv (zoom_payload (zoom_bad H || zoom_bad V)) inv obs
+      | Some ids =>
+          let err := if merge then negb (is_ok (merge_ext_api ids H V)) else negb (is_ok (change_ext_api ids H V)) in
+          judge (invalid_change_ext ids H V) (zoom_payload (zoom_bad H || zoom_bad V)) err obs
       | None => bad_case
       end
   | _ => bad_case
@@ -247,7 +274,9 @@ Definition d_change_sid (merge : bool) (args : list val) (obs : val) : verdict :
   match args with
   | [l; VZ z] =>
       match as_LS l with
-      | Some ids => let inv := invalid_change_sid ids z in judge inv (zoom_payload (zoom_bad z)) inv obs
+      | Some ids =>
+          let err := if merge then negb (is_ok (merge_sid_api ids z)) else negb (is_ok (change_sid_api ids z)) in
+          judge (invalid_change_sid ids z) (zoom_payload (zoom_bad z)) err obs
       | None => bad_case
       end
   | _ => bad_case
@@ -279,11 +308,17 @@ Definition d_neigh (k : nat) (args : list val) (obs : val) : verdict :=
       end
   | _ => bad_case
   end.
+(* layer counts: negative ones are the property's subject; non-negative ones only within the capacity bound C08 states,
+   (2H+1)^2 (2V+1) <= 2^16 (the Go function allocates that many slots before looking at anything and panics once the product
+   wraps, e.g. ([], 1518500250, 0); the unbounded model has no such limit): beyond it bad_case *)
+Definition capacity_ok (H V : Z) : bool := (2 * H + 1) * (2 * H + 1) * (2 * V + 1) <=? 2 ^ 16.
 Definition d_nN (args : list val) (obs : val) : verdict :=
   match args with
   | [l; VZ H; VZ V] =>
       match as_LS l with
-      | Some ids => let inv := invalid_nN ids H V in judge inv P_any inv obs
+      | Some ids =>
+          if (0 <=? H) && (0 <=? V) && negb (capacity_ok H V) then bad_case
+          else judge (invalid_nN ids H V) P_any (negb (is_ok (nN_api ids H V))) obs
       | None => bad_case
       end
   | _ => bad_case
@@ -326,13 +361,16 @@ Definition d_sp_array (args : list val) (obs : val) : verdict :=
   end.
 
 (* ---------- transform ---------- *)
+(* bit form (maxHeight > minHeight, C17's subject): judged here only when the call is invalid for a reason that does not depend on
+   the heights (output zooms, a malformed member): then an error is due whatever the form; a valid bit-form call is bad_case *)
 Definition d_e2q (sid : bool) (args : list val) (obs : val) : verdict :=
   match args with
   | [l; VZ oh; VZ ov; VF mx; VF mn] =>
       match as_LS l, height_index mx mn with
       | Some ids, Some idx =>
-          if sid then judge (invalid_s2q idx ids oh ov) (zoom_payload (negb (qcheck oh ov))) (err_s2q idx ids oh ov) obs
-          else judge (invalid_e2q idx ids oh ov) (zoom_payload (negb (qcheck oh ov))) (err_e2q idx ids oh ov) obs
+          let inv := if sid then invalid_s2q idx ids oh ov else invalid_e2q idx ids oh ov in
+          if height_bits mx mn then (if inv then judge true (zoom_payload (negb (qcheck oh ov))) true obs else bad_case)
+          else judge inv (zoom_payload (negb (qcheck oh ov))) (if sid then err_s2q idx ids oh ov else err_e2q idx ids oh ov) obs
       | _, _ => bad_case
       end
   | _ => bad_case
@@ -351,7 +389,12 @@ Definition d_q2e (sid : bool) (args : list val) (obs : val) : verdict :=
   | [VL l; VZ oh; VZ ov] =>
       let ov := if sid then oh else ov in
       match all_opt (map as_item l) with
-      | Some items => judge (invalid_q2e items oh ov) (zoom_payload (negb (echeck oh ov) || existsb item_zoom_bad items)) (err_q2e items oh ov) obs
+      | Some its =>
+          let items := map fst its in
+          let inv := invalid_q2e items oh ov in
+          let pl := zoom_payload (negb (echeck oh ov) || existsb item_zoom_bad items) in
+          if existsb snd its then (if inv then judge true pl true obs else bad_case)
+          else judge inv pl (err_q2e items oh ov) obs
       | None => bad_case
       end
   | _ => bad_case
@@ -373,30 +416,32 @@ Definition d_tiles (args : list val) (obs : val) : verdict :=
 Definition d_altkey (fwd : bool) (args : list val) (obs : val) : verdict :=
   match args with
   | [VZ i; VZ z; VZ out; VZ E; VZ Ofs] =>
-      if invalid_altkey z out then
-        (* documented excluded, but the functions do not validate zooms as such: anything but an error is the finding *)
-        match obs with
-        | VE _ => mkv true true "-" (VE VNil)
-        | VTimeout => mkv false false "-" (VE VNil)
-        | _ => mkv true false "altkey_zoom_unchecked" (VE VNil)
-        end
-      else
-        let m := if fwd then z2key i z out E Ofs else key2z i z out E Ofs in
-        let v := judge false P_any (negb (is_ok m)) obs in
-        let same := match m, obs with Ok (a, b), VL [VZ c; VZ d] => (a =? c) && (b =? d) | Ok _, _ => false | Err, _ => true end in
-        mkv (v_corr v && same) (v_prop v) (v_class v) (match m with Ok (a, b) => VL [VZ a; VZ b] | Err => VE VNil end)
+      (* Api.z2key_rejects / key2z_rejects: the model answers Err; it is not run on such zooms (the extracted key2z would first
+         evaluate 1 << zoom on an unbounded integer) *)
+      if invalid_altkey z out then judge true P_any true obs else
+      let m := if fwd then z2key i z out E Ofs else key2z i z out E Ofs in
+      let v := judge false P_any (negb (is_ok m)) obs in
+      let same := match m, obs with Ok (a, b), VL [VZ c; VZ d] => (a =? c) && (b =? d) | Ok _, _ => false | Err, _ => true end in
+      mkv (v_corr v && same) (v_prop v) (v_class v) (match m with Ok (a, b) => VL [VZ a; VZ b] | Err => VE VNil end)
   | _ => bad_case
   end.
+(* the fit: Corridor.fit_struct is the part of the owner's model that does not depend on the measured distances
+   (Some Err / Some (Ok (0,0)) / None = layer counts decided by the geometry, no error) *)
 Definition d_fit (args : list val) (obs : val) : verdict :=
   match args with
-  | [VS id; VF c] => let inv := invalid_fit id c in judge inv P_any inv obs
+  | [VS id; VF c] =>
+      judge (invalid_fit id c) P_any (match fit_struct id c with Some Err => true | _ => false end) obs
   | _ => bad_case
   end.
-Definition d_corridor (args : list val) (obs : val) : verdict :=
+(* the corridor: the line's prefix (above), then the fit on a voxel of the line (refused only for a negative radius: the line's voxels
+   are printed valid IDs), then nN with the layer counts of the fit (never negative) *)
+Definition d_corridor (oracle : oracle_t) (args : list val) (obs : val) : verdict :=
   match args with
   | [s; e; VF r; VZ h; VZ v; VB skip] =>
-      match has_nil [s; e] with
-      | Some n => let inv := invalid_corridor n h v r in judge inv P_any inv obs
+      match as_points [s; e] with
+      | Some (n, ps) =>
+          if negb (forallb point_in_domain ps) then bad_case
+          else judge (invalid_corridor n h v r) P_any (negb (is_ok (points_model oracle false n ps h v)) || (r <? 0)%float) obs
       | None => bad_case
       end
   | _ => bad_case
@@ -418,8 +463,8 @@ Definition raw_table : table :=
   [("NewPoint", fun _ => d_new_point); ("Point.SetLon", fun _ => d_set_lon); ("Point.SetLat", fun _ => d_set_lat);
    ("NewExtendedSpatialID", fun _ => d_new_eid); ("ExtendedSpatialID.ResetExtendedSpatialID", fun _ => d_reset_eid);
    ("NewTileXYZ", fun _ => d_new_tile); ("TileXYZ.SetHZoom", fun _ => d_tile_set true); ("TileXYZ.SetVZoom", fun _ => d_tile_set false);
-   ("GetExtendedSpatialIdsOnPoints", fun _ => d_points false); ("GetSpatialIdsOnPoints", fun _ => d_points_sid);
-   ("GetExtendedSpatialIdsOnLine", fun _ => d_line); ("GetSpatialIdsOnLine", fun _ => d_line_sid);
+   ("GetExtendedSpatialIdsOnPoints", fun o => d_points o false); ("GetSpatialIdsOnPoints", d_points_sid);
+   ("GetExtendedSpatialIdsOnLine", d_line); ("GetSpatialIdsOnLine", d_line_sid);
    ("GetPointOnExtendedSpatialId", fun _ => d_point_on false); ("GetPointOnSpatialId", fun _ => d_point_on true);
    ("ConvertSpatialIdsToExtendedSpatialIds", fun _ => d_s2e); ("ConvertExtendedSpatialIdsToSpatialIds", fun _ => d_e2s);
    ("ConvertPointListToProjectedPointList", fun _ => d_project); ("ConvertProjectedPointListToPointList", fun _ => d_project);
@@ -437,7 +482,7 @@ Definition raw_table : table :=
    ("ConvertQuadkeysAndVerticalIDsToSpatialIDs", fun _ => d_q2s);
    ("ConvertTileXYZsToExtendedSpatialIDs", fun _ => d_tiles); ("ConvertTileXYZsToSpatialIDs", fun _ => d_tiles);
    ("ConvertZToMinMaxAltitudekey", fun _ => d_altkey true); ("ConvertAltitudekeyToMinMaxZ", fun _ => d_altkey false);
-   ("FitClearanceAroundExtendedSpatialID", fun _ => d_fit); ("GetExtendedSpatialIdsWithinRadiusOfLine", fun _ => d_corridor);
+   ("FitClearanceAroundExtendedSpatialID", fun _ => d_fit); ("GetExtendedSpatialIdsWithinRadiusOfLine", d_corridor);
    ("GetVoxelIDfromSpatialID", fun _ => d_voxel)].
 
 (* a call the harness did not make (output bound exceeded, or a shrink candidate of the wrong shape) is never judged *)
@@ -447,14 +492,19 @@ Definition single_table : table := map guarded raw_table.
 
 (* Sequence: calls made back to back by one invoker (a call must not be influenced by the calls before it: memoised validation, a
    "last validated" cache); args = [VL [VL [VS fn; VL args]; ...]], observed = VL [result; ...]; every call is judged as above *)
+(* a finding class excuses only the call that carries it: the sequence passes iff every call passes or is classified, and keeps
+   a class label only then; any unclassified failing call makes the whole sequence an unclassified failure *)
+Definition classed (v : verdict) : bool := negb (String.eqb (v_class v) "-") && negb (String.eqb (v_class v) "bad-case").
 Fixpoint seq_verdict (o : oracle_t) (calls obs : list val) : verdict :=
   match calls, obs with
   | [], [] => mkv true true "-" (VL [])
   | VL [VS fn; VL a] :: cr, ob :: obr =>
       let v := run_table single_table o fn a ob in
       let r := seq_verdict o cr obr in
-      mkv (v_corr v && v_corr r) (v_prop v && v_prop r)
-          (if String.eqb (v_class v) "-" then v_class r else v_class v)
+      if String.eqb (v_class v) "bad-case" || String.eqb (v_class r) "bad-case" then bad_case else
+      let c := (v_corr v || classed v) && v_corr r in
+      let p := (v_prop v || classed v) && v_prop r in
+      mkv c p (if c && p then (if classed v then v_class v else v_class r) else "-")
           (match v_model r with VL l => VL (v_model v :: l) | _ => VNil end)
   | _, _ => bad_case
   end.
